@@ -9,6 +9,7 @@ package service
 // the two ends of the wire, and at mutex operations.
 
 import (
+	gocontext "context"
 	"github.com/orda-io/orda/client/pkg/errors"
 	"github.com/orda-io/orda/client/pkg/model"
 	"github.com/orda-io/orda/client/pkg/orda"
@@ -143,4 +144,31 @@ func VF_C18_JoinRace() {
 	_, _, _, pa := orda.VFSyncState(a.cnt)
 	vf.Assert(pa == 0, "C18 every local operation of a realtime client is pushed without a Sync call")
 	vf.Assert(a.cnt.Get() == 1 && b.cnt.Get() == 1, "C18 a client that has reported its first sync as complete hears about every later push")
+}
+
+// VF_C18_RestToRealtime (C18, C19): a REST patch is a push like any other: its
+// announcement travels through the broker to the real notification path of a
+// subscribed realtime client (NotifyManager callback, channel, loop, datatype
+// manager), which pulls by itself and converges to the target.  The pusher id
+// in the announcement is the server's patch client, not an SDK-generated id.
+func VF_C18_RestToRealtime() {
+	w := vfNewWorld()
+	br := &vfBroker{}
+	w.mq.broker = br
+	w.seedCollection(vfCol, 1)
+	a := w.newRealtimePeer("a", vfCUIDx, br)
+	doc := a.cli.CreateDocument(vfKey, a.handlers())
+	_, e := doc.PutToObject("a", "old")
+	vf.Assert(e == nil, "client put succeeds")
+	vf.Quiesce()
+	vf.Assert(orda.VFDatatypeState(doc) == model.StateOfDatatype_SUBSCRIBED, "C18 the realtime client completes its first sync by itself")
+	calls := a.tr.calls
+	target := c19Targets[vf.Choice("target", 2)]
+	res, err := w.svc.PatchDocument(gocontext.TODO(), &model.PatchMessage{Key: vfKey, Collection: vfCol, Json: target})
+	vf.Assert(err == nil && res != nil, "C19 the REST patch is answered")
+	vf.Quiesce()
+	vf.Reach("settled")
+	vf.Assert(a.tr.calls > calls, "C18 the announcement of a REST patch makes a subscribed realtime client pull")
+	vf.Assert(jsonEq(doc.GetValue(), parseJSON(target)), "C18/C19 the realtime client converges to the patch target without a Sync call")
+	vf.Assert(a.errs == 0, "C18 no error on the client")
 }
